@@ -120,12 +120,69 @@ def rule_thresholds(ctx: Ctx, rep: Report) -> None:
     rep.ob(rule, "secret_length", "_MIN_SECRET_BYTES" in norm(al.node) and "% 2" in norm(al.node), al.where(), "at least 16 bytes and even")
 
 
+def rule_bip85_input(ctx: Ctx, rep: Report) -> None:
+    """C13.bip85_input: BIP85 hashes the 32 bytes of the derived private key:
+    the 33-byte key field without its first byte, a *positional* cut. A cut by
+    content (`lstrip(b"\\x00")`) also removes the leading zero bytes of the key
+    itself -- one key in 256 -- and the entropy is then another one's."""
+    rule = "C13.bip85_input"
+    fi = ctx.func("btclib.bip85._entropy_from_der_path")
+    hm = [c for c in own_nodes(fi.node) if isinstance(c, ast.Call) and norm(c.func) == "hmac.new" and len(c.args) >= 2]
+    if not hm:
+        rep.unknown(rule, "_entropy_from_der_path", fi.where(), "no hmac.new(key, data, ...) call: shape not recognised")
+        return
+    from sa.canon import expand
+    for c in hm:
+        data = ast.parse(str(expand(fi, c.args[1])), mode="eval").body
+        if isinstance(data, ast.Subscript) and isinstance(data.slice, ast.Slice) and data.slice.upper is None and data.slice.lower is not None and ctx.fold(data.slice.lower, fi.module) == 1 \
+                and isinstance(data.value, ast.Attribute) and data.value.attr == "key":
+            rep.ob(rule, "hmac_data", True, fi.where(c), "the key field without its first byte")
+        elif any(isinstance(x, ast.Call) and call_name(x) in ("lstrip", "strip", "rstrip", "removeprefix") for x in ast.walk(data)):
+            rep.ob(rule, "hmac_data", False, fi.where(c), f"`{norm(c.args[1])}` cuts the key by content: a private key that starts with a zero byte loses it, and the HMAC is over 31 bytes")
+        else:
+            rep.unknown(rule, "hmac_data", fi.where(c), f"`{norm(c.args[1])}`: shape not recognised")
+    rep.ob(rule, "hmac_key", ctx.const("btclib.bip85", "_HMAC_KEY") == b"bip-entropy-from-k", "btclib/bip85.py:1", "HMAC key 'bip-entropy-from-k'")
+
+
+def rule_lang_pick(ctx: Ctx, rep: Report) -> None:
+    """C13.lang_pick: when a sentence is made of words several languages share,
+    the language answered is the one under which the checksum holds: with
+    exactly one valid candidate, that one is returned -- not the first candidate."""
+    rule = "C13.lang_pick"
+    fi = ctx.func("btclib.mnemonic.bip39.lang_from_mnemonic")
+    m: dict[str, str] = {}
+    v = PT.find(fi.node, "$valid = [$l for $l in $cands if _is_valid_mnemonic(mnemonic, $l)]", m)
+    if v is None:
+        rep.unknown(rule, "lang_from_mnemonic", fi.where(), "no list of the candidates that pass the checksum: shape not recognised")
+        return
+    g = ctx.cfg(fi)
+    val = m["valid"]
+    rets = [r for r in own_nodes(fi.node) if isinstance(r, ast.Return) and r.value is not None]
+    n = 0
+    for r in rets:
+        facts = g.facts_at_ast(r.value)
+        one = PT.fact(facts, f"len({val}) != 1", False) or PT.fact(facts, f"len({val}) == 1", True)
+        if not one:
+            continue
+        n += 1
+        ok = str(norm(r.value)) in (f"{val}[0]", f"{val}[-1]")
+        rep.ob(rule, "one_valid_language", ok, fi.where(r), "the one candidate whose checksum holds" if ok else
+               f"with exactly one valid candidate the function answers `{norm(r.value)}`: the first candidate by registry order, under which the checksum may not hold")
+    rep.floor(rule, 1)
+
+
 RULES = [
+    ("C13.bip85_input", rule_bip85_input),
+    ("C13.lang_pick", rule_lang_pick),
     ("C13.checksum_gate", rule_checksum_gate),
     ("C13.thresholds", rule_thresholds),
 ]
 
 CONTROLS = [
+    {"rule": "C13.bip85_input", "name": "the key's leading zeros are stripped", "module": "btclib.bip85",
+     "edit": lambda ctx: M.sub_expr(ctx, "btclib.bip85._entropy_from_der_path", M.is_text("xkey.key[1:]"), "xkey.key.lstrip(b'\\x00')")},
+    {"rule": "C13.lang_pick", "name": "the first candidate is answered instead of the valid one", "module": "btclib.mnemonic.bip39",
+     "edit": lambda ctx: M.sub_expr(ctx, "btclib.mnemonic.bip39.lang_from_mnemonic", M.is_text("return valid[0]"), "return candidates[0]")},
     {"rule": "C13.checksum_gate", "name": "bip39 checksum comparison dropped", "module": B39,
      "edit": lambda ctx: M.drop_if(ctx, f"{B39}.entropy_from_mnemonic", lambda n: "checksum" in norm(n.test))},
     {"rule": "C13.checksum_gate", "name": "slip39 digest skipped for threshold two as well", "module": S39,
